@@ -394,6 +394,21 @@ func init() {
 		if ss, ok := allStrings(args[0], args[1]); ok {
 			return strings.Compare(ss[0], ss[1])
 		}
+		// a number's text against a string that cannot start a number: the
+		// first byte decides, no concretisation needed
+		sa, sb := strSegs(args[0]), strSegs(args[1])
+		if r, ok := numTextVsFirstByte(sa, sb, false); ok {
+			if fr.i.ex.Branch(boolTerm(r)) {
+				return -1
+			}
+			return 1
+		}
+		if r, ok := numTextVsFirstByte(sb, sa, false); ok {
+			if fr.i.ex.Branch(boolTerm(r)) {
+				return 1
+			}
+			return -1
+		}
 		a, b := fr.i.ex.flatten(args[0]), fr.i.ex.flatten(args[1])
 		return mkScalar(strCompareTerm(a, b), types.Int)
 	}
@@ -575,8 +590,15 @@ func init() {
 			panic(pathAbort{"unsupported", "math." + name + " on a symbolic value"})
 		}
 	}
-	conc1("Floor", math.Floor)
-	conc1("Ceil", math.Ceil)
+	rti := func(name string, f func(*Term) *Term) {
+		externals["math."+name] = func(fr *frame, args []value) value {
+			a, _, _ := scalarTerm(args[0])
+			return mkScalar(f(a), types.Float64)
+		}
+	}
+	rti("Floor", FpFloor)
+	rti("Ceil", FpCeil)
+	rti("Round", FpRound)
 	conc1("Sqrt", math.Sqrt)
 	conc1("Log", math.Log)
 	conc1("Exp", math.Exp)
